@@ -95,6 +95,89 @@ def c_c05(recs):
     return i
 
 
+def c_c03(recs):
+    i = _first(recs, lambda r: r["f"] and r["c"][0] == 1 and len(r["x"]) > 30)
+    if i is None:
+        return None
+    recs[i]["c"] = [0, 5, 0]          # pretend the allocating parser rejected a well-formed file
+    return i
+
+
+def c_c04(recs):
+    i = _first(recs, lambda r: r["c"][0] == 1 and len(r["c"][1]) > 0)
+    if i is None:
+        return None
+    recs[i]["c"][1][0][1] ^= 1        # group_no of the first message differs from what the bytes say
+    return i
+
+
+def c_c06(recs):
+    i = _first(recs, lambda r: r["co"] in (0, 1))
+    if i is None:
+        return None
+    recs[i]["a"][1] = 256 * recs[i]["n"] + 4096 + 1
+    return i
+
+
+def c_c09(recs):
+    i = _first(recs, lambda r: r["c"][0] == 1 and len(r["ev"]) >= 2)
+    if i is None:
+        return None
+    recs[i]["ev"] = recs[i]["ev"][:-1]  # streaming parser lost its last event
+    return i
+
+
+def c_c10(recs):
+    i = _first(recs, lambda r: len(r["files"]) >= 1 and any(x[1] == 1 for x in r["res"]))
+    if i is None:
+        return None
+    for x in recs[i]["res"]:
+        if x[1] == 1 and x[0] == 0 and x[2]:
+            x[2][0] ^= 1
+            return i
+    for x in recs[i]["res"]:
+        if x[1] == 0:
+            x[2][-1] += 1
+            return i
+    return None
+
+
+def c_c11(recs):
+    i = _first(recs, lambda r: any(e[1] == 9 and e[2] == 2 for e in r["res"]))
+    if i is None:
+        return None
+    for e in recs[i]["res"]:
+        if e[1] == 9 and e[2] == 2:
+            e[3] += 1
+            return i
+
+
+def c_c12(recs):
+    i = _first(recs, lambda r: len(r["ev"]) >= 1 and r["ev"][0][0] == 1)
+    if i is None:
+        return None
+    recs[i]["ev"][0][2] ^= 1          # group_no
+    return i
+
+
+def c_c13(recs):
+    i = _first(recs, lambda r: r["after"] == 0)
+    if i is None:
+        return None
+    recs[i]["after"] = 1
+    return i
+
+
+def c_c18(recs):
+    i = _first(recs, lambda r: len(r["obs"]) >= 2 and len(r["obs"][-1]) >= 2)
+    if i is None:
+        return None
+    recs[i]["obs"][-1][-1] ^= 1
+    return i
+
+
+CFG = {"C03": "JudgeP.cfg", "C04": "JudgeP.cfg", "C06": "JudgeP.cfg", "C09": "JudgeP.cfg", "C10": "JudgeP.cfg", "C12": "JudgeP.cfg", "C13": "JudgeP.cfg"}
+
 CONTROLS = {
     # property: (harness cmd, judge module, corruption)
     "C01": ("c01", "J_C01", c_c01),
@@ -106,6 +189,15 @@ CONTROLS = {
     "C15": ("c15", "J_C15", c_c15),
     "C16": ("c16", "J_C16", c_c16),
     "C17": ("c17", "J_C17", c_c17),
+    "C03": ("c03", "J_C03", c_c03),
+    "C04": ("c04", "J_C04", c_c04),
+    "C06": ("c06", "J_C06", c_c06),
+    "C09": ("c09", "J_C09", c_c09),
+    "C10": ("c10", "J_C10", c_c10),
+    "C11": ("c11", "J_C11", c_c11),
+    "C12": ("c12", "J_C12", c_c12),
+    "C13": ("c13", "J_C13", c_c13),
+    "C18": ("c18", "J_C18", c_c18),
 }
 
 SPEC_CONTROLS = ["crc_table", "frame_rle", "neg_matcher_drop", "neg_resync_drop", "neg_capacity_drop", "neg_tlf_shl", "neg_pending_keep", "neg_pending_32"]
@@ -116,14 +208,14 @@ def binding_control(vf, pid, nd_path=None):
     if nd_path is None or not os.path.exists(nd_path):
         binary, _ = vf.build("checked")
         nd_path = os.path.join(vf.WORK, "neg-%s.ndjson" % cmd)
-        vf.run_harness(binary, [cmd, "quick"], nd_path)
+        vf.run_harness(binary, [cmd, "quick"], nd_path, extra_env={"VF_LIMIT": "4000"})
     lines = open(nd_path).read().splitlines()
     n = len(lines)
     pick = lines[:150] + lines[n // 2: n // 2 + 150] + lines[-150:]
     recs = [json.loads(l) for l in pick]
     p0 = os.path.join(vf.WORK, "neg-%s-base.ndjson" % pid)
     open(p0, "w").write("\n".join(pick) + "\n")
-    base, _ = vf.judge(judge, p0, "negb-" + pid)
+    base, _ = vf.judge(judge, p0, "negb-" + pid, cfg=CFG.get(pid, "Judge.cfg"))
     recs = [r for k, r in enumerate(recs) if (k + 1) not in base]   # controls are relative to what the tree does now
     idx = corrupt(recs)
     if idx is None:
@@ -132,7 +224,7 @@ def binding_control(vf, pid, nd_path=None):
     with open(p, "w") as f:
         for r in recs:
             f.write(json.dumps(r, separators=(",", ":")) + "\n")
-    rejected, st = vf.judge(judge, p, "neg-" + pid)
+    rejected, st = vf.judge(judge, p, "neg-" + pid, cfg=CFG.get(pid, "Judge.cfg"))
     if rejected != [idx + 1]:
         raise vf.ToolError("negative control %s: corrupted record %d, judge rejected %s" % (pid, idx + 1, rejected[:10]))
     return {"control": "corrupt-one-field", "property": pid, "records": len(recs), "rejected_exactly": idx + 1}
